@@ -582,7 +582,13 @@ static void run_custom(ACtx &c, int id, uint64_t variant)
 	case F_UPDATE_ST:
 	case F_UPDATE_MT: {
 		Chain ch; small_chain(ch, 0);
-		Chain ch2; small_chain(ch2, 1);
+		Chain ch2; small_chain(ch2, variant % 3 == 0 ? 0 : 1);
+		// (every third variant: the same chain with another match finder and the same dictionary size, so that
+		// the LZ encoder re-initialises in place and keeps what it can of its old arrays)
+		if (variant % 3 == 0) {
+			static const lzma_match_finder pairs[][2] = { { LZMA_MF_HC3, LZMA_MF_HC4 }, { LZMA_MF_BT2, LZMA_MF_BT3 }, { LZMA_MF_HC4, LZMA_MF_HC3 }, { LZMA_MF_BT3, LZMA_MF_BT4 }, { LZMA_MF_BT4, LZMA_MF_BT2 }, { LZMA_MF_HC4, LZMA_MF_BT4 }, { LZMA_MF_BT2, LZMA_MF_BT4 } };
+			ch.lz.mf = pairs[(variant / 3) % 7][0]; ch2.lz.mf = pairs[(variant / 3) % 7][1];
+		}
 		lzma_mt mt; memset(&mt, 0, sizeof mt);
 		mt.threads = 2; mt.block_size = 5000; mt.filters = ch.f; mt.check = LZMA_CHECK_CRC32;
 		lzma_stream s = LZMA_STREAM_INIT;
